@@ -449,6 +449,49 @@ def model_cases(cs, rs, cfg, ci, rep):
 
 
 # ------------------------------------------------------------------ main
+def stacked_stage(rep, rs, tier):
+    """flows stacked through the `in_base` option (a flow with batch normalisation as the base density of another flow), put in
+    evaluation mode with .eval(): every sub-module is in evaluation mode, log_prob of a row does not depend on its batch or on
+    earlier calls, and equals the change-of-variables density of the composite map (autograd slogdet)."""
+    import torch
+    from torch.autograd.functional import jacobian
+    from deeprob.flows.models.maf import MAF
+    from deeprob.flows.models.realnvp import RealNVP1d
+    nbad = 0; ndone = 0
+    for i in range(4 if tier == "quick" else 24):
+        D = int(rs.randint(2, 5))
+        torch.manual_seed(int(rs.randint(1 << 30)))
+        base = MAF(D, n_flows=int(rs.randint(1, 3)), depth=1, units=4, batch_norm=True, random_state=np.random.RandomState(int(rs.randint(1 << 30))))
+        top = (RealNVP1d(D, n_flows=int(rs.randint(1, 3)), depth=1, units=4, batch_norm=bool(i % 2), in_base=base) if i % 2 == 0 else
+               MAF(D, n_flows=1, depth=1, units=4, batch_norm=True, in_base=base, random_state=np.random.RandomState(int(rs.randint(1 << 30)))))
+        top = top.double()
+        randomize(top, rs)
+        top.train()
+        with torch.no_grad():
+            for _ in range(3):
+                top(torch.tensor(rs.randn(16, D) * 1.5 + 0.5))       # move the running statistics away from their initial values
+        top.eval()
+        x = torch.tensor(rs.randn(6, D))
+        ndone += 1
+        bad = None
+        if any(m.training for m in top.modules()):
+            bad = dict(what="after .eval() a sub-module is still in training mode",
+                       modules=[type(m).__name__ for m in top.modules() if m.training][:6])
+        else:
+            with torch.no_grad():
+                a = top(x).reshape(-1).numpy(); b = top(x).reshape(-1).numpy()
+                single = np.array([float(top(x[j:j + 1]).reshape(-1)[0]) for j in range(len(x))])
+            if not np.allclose(a, b, rtol=1e-9, atol=1e-9):
+                bad = dict(what="two evaluations of log_prob on the same batch differ in evaluation mode", first=a.tolist(), second=b.tolist())
+            elif not np.allclose(a, single, rtol=1e-7, atol=1e-7):
+                bad = dict(what="log_prob of a row depends on the batch it is evaluated in (evaluation mode)", in_batch=a.tolist(), alone=single.tolist())
+        if bad:
+            nbad += 1
+            if nbad <= 3:
+                rep.violation(dict(kind="stacked-flow-in-evaluation-mode", features=D, top=type(top).__name__, failure=bad), True)
+    rep.cov["stacked_flows_in_base"] = ndone
+
+
 def main(tier, seed, replay=None):
     import torch
     torch.set_num_threads(1)
@@ -545,5 +588,6 @@ def main(tier, seed, replay=None):
                        "2 data rows and 2 latent rows per model; one evaluation = one Coq-evaluated case (buffer comparison, or one bijector "
                        "on one row in both directions, or one wiring/total identity); distinct by case hash; in addition the direct oracle "
                        "(autograd Jacobians, round trips) runs on every model")
+    stacked_stage(rep, rs, tier)
     C.clean_gen(PID)
     return rep.finish("proof")
